@@ -23,11 +23,6 @@ def collect_checks():
 
 
 NOT_APPLICABLE = {
-    "C08": "check under construction in this round (builder sm)",
-    "C09": "check under construction in this round (builder sm)",
-    "C10": "check under construction in this round (builder sm)",
-    "C13": "check under construction in this round (builder conn)",
-    "C14": "check under construction in this round (builder conn)",
 }
 
 ENGINES = [
